@@ -10,6 +10,8 @@ out=seeded/RESULTS.txt; [ $# -eq 0 ] && : > $out
 S=$(mktemp -d /tmp/seedcheck.XXXXXX)
 git clone -q /repo $S/repo || exit 2
 export VERIF_REPO=$S/repo VERIF_OUT=$S/out
+# only "is the change detected at all" is asked here: stop at the first violating shard (FULL=1 for complete runs)
+[ -z "$FULL" ] && export VERIF_FAILFAST=1
 [ $# -eq 0 ] && echo "# repo HEAD $(git -C /repo rev-parse --short HEAD), verif $(git -C $V rev-parse --short HEAD), tier $tier" >> $out
 for id in $ids; do
   d=$V/seeded/$id; pid=${id%_*}
